@@ -8,6 +8,15 @@ Lemma static_ok :
   no_bad_reference C24_graph.graph C24_graph.sources C24_graph.bad C24_graph.allowed.
 Proof. apply no_bad_reference_sound. vm_compute. reflexivity. Qed.
 
+(* every float64 running sum in a consensus function that ranges over a map
+   adds integer-valued operands only *)
+Lemma float_map_sums_integral :
+  forall f ok, In (f, ok) C24_graph.float_map_sums -> ok = true.
+Proof.
+  assert (H : forallb (fun s => snd s) C24_graph.float_map_sums = true) by (vm_compute; reflexivity).
+  rewrite forallb_forall in H. intros f ok Hin. exact (H _ Hin).
+Qed.
+
 (* the table is not degenerate: the anchors named by the property are source
    nodes with out-edges, there are bad nodes, and the search ran to completion *)
 Lemma static_nonvacuous :
@@ -15,5 +24,6 @@ Lemma static_nonvacuous :
                     && existsb (fun e => Pos.eqb (fst e) (fst a)) C24_graph.graph) C24_graph.anchors = true
   /\ negb (Nat.eqb (length C24_graph.anchors) 0) = true
   /\ negb (Nat.eqb (length C24_graph.bad) 0) = true
-  /\ (match reach_set C24_graph.graph C24_graph.sources with Some _ => true | None => false end) = true.
+  /\ (match reach_set C24_graph.graph C24_graph.sources with Some _ => true | None => false end) = true
+  /\ negb (Nat.eqb (length C24_graph.float_map_sums) 0) = true.
 Proof. vm_compute. repeat split. Qed.
